@@ -78,6 +78,18 @@ fn method_strings(cfg: &Cfg, rng: &mut Rng) -> Vec<String> {
         "..".into(),
         "".into(),
         "nodot".into(),
+        // names nobody registered, with characters a hand-made reply would have to escape
+        "org.exa\u{1}mple.X".into(),
+        "a\u{7f}.b.X".into(),
+        "a\u{200b}b.c.X".into(),
+        "q\"uote.x.X".into(),
+        "back\\slash.x.X".into(),
+        "tab\there.x\n.X".into(),
+        "\u{fc}.\u{f6}.\u{c4}".into(),
+        "a.b\u{0}c.X".into(),
+        "\u{1b}[31m.x.X".into(),
+        "no\u{1}dot".into(),
+        "\u{2028}.\u{feff}.X".into(),
         ".Known".into(),
         "Known.".into(),
         "a.".into(),
